@@ -32,7 +32,8 @@ USER_CMDS = ("Pause", "Unpause", "Hold", "Unhold", "Stop", "Start", "Restart")
 
 class TagInfo:
     __slots__ = ("chg_tick", "chg_site", "chg_attr", "chg_unmask", "raw_chg_tick", "stamp_tick", "stamp_site",
-                 "stamp_caller", "stamp_ticks", "n_chg", "n_chg_since_report", "n_notified_since_report", "chg_ticks_since_report")
+                 "stamp_caller", "stamp_ticks", "n_chg", "n_chg_since_report", "n_notified_since_report", "chg_ticks_since_report",
+                 "chg_ticks")
 
     def __init__(self):
         self.chg_tick = None        # last rig tick in which the reported value changed (0 = before first tick)
@@ -48,6 +49,7 @@ class TagInfo:
         self.n_chg_since_report = 0
         self.n_notified_since_report = 0
         self.chg_ticks_since_report = set()
+        self.chg_ticks = set()      # all rig ticks in which the reported value changed (counter aid: "totalizer at rest")
 
 
 class _Log:
@@ -110,6 +112,7 @@ def _tag_setattr(self, name, val):
                 info.n_chg += 1
                 info.n_chg_since_report += 1
                 info.chg_ticks_since_report.add(tick)
+                info.chg_ticks.add(tick)
             return
     object.__setattr__(self, name, val)
 
@@ -150,6 +153,45 @@ class TagGen(Gen):
         super().stmt(ind, depth, in_block, no_blank)
 
 
+TOT_RATES = (0.01, 0.25, 0.5, 1.5)
+UOD_KINDS = ("vol", "vol+cv", "cv")
+
+
+def tot_trajectory(rnd: random.Random, n: int) -> tuple[str, list[float]]:
+    """Scripted totalizer readings (never decreasing). Besides the always-moving / never-moving meter:
+    * "plateaus": flow phases of 1-12 ticks alternate with plateaus of 5-30 ticks in which the meter stands still;
+    * "burst":    the meter moves for 1-8 ticks early in the run and then stands still (optionally resumes much later),
+                  so every later block start / block end lies inside a plateau with volume already accumulated.
+    Values on a plateau are the *same float* (no re-computation), so an accumulator really sees no change."""
+    kind = rnd.choice(["linear", "linear", "plateaus", "plateaus", "plateaus", "burst", "burst"])
+    if kind == "linear":
+        rate = rnd.choice([0.0, 0.01, 0.5, 0.25])
+        return kind, [rate * k for k in range(n)]
+    out: list[float] = []
+    v = rnd.choice([0.0, 0.0, 12.5])
+    if kind == "burst":
+        a = rnd.randint(0, 6)
+        w = rnd.randint(1, 8)
+        rate = rnd.choice(TOT_RATES)
+        resume = a + w + rnd.randint(20, 60) if rnd.random() < 0.4 else None
+        for k in range(n):
+            if a <= k < a + w or (resume is not None and k >= resume):
+                v = v + rate
+            out.append(v)
+        return kind, out
+    flowing = rnd.random() < 0.6
+    while len(out) < n:
+        if flowing:
+            rate = rnd.choice(TOT_RATES)
+            for _ in range(rnd.randint(1, 12)):
+                v = v + rate
+                out.append(v)
+        else:
+            out.extend([v] * rnd.randint(5, 30))
+        flowing = not flowing
+    return kind, out[:n]
+
+
 def gen_case(rnd: random.Random, max_depth: int = 3, max_ticks: int = 120) -> dict:
     g = TagGen(rnd, allow=("mark", "uod", "wait", "block", "block", "watch", "alarm", "macro", "thr", "blank", "base",
                         "sim", "counter", "info", "pausehold"),
@@ -167,8 +209,39 @@ def gen_case(rnd: random.Random, max_depth: int = 3, max_ticks: int = 120) -> di
         for _ in range(rnd.randint(1, 3)):
             user.append([rnd.randint(2, 60), rnd.choice(USER_CMDS)])
         user.sort()
-    return {"text": text, "traj": traj, "tot_rate": rnd.choice([0.0, 0.01, 0.5, 0.25]),
+    tot_kind, tot = tot_trajectory(rnd, max_ticks + 2)
+    return {"text": text, "traj": traj, "tot": tot, "tot_kind": tot_kind,
+            "uod": rnd.choice(["vol", "vol", "vol+cv", "vol+cv", "cv"]), "cv": rnd.choice([0.5, 2.0, 4.0]),
             "archiver": rnd.random() < 0.5, "reports": reports, "user": user, "max_ticks": max_ticks}
+
+
+def uod_factory(kind: str, cv: float):
+    """The standard rig UOD (engine_rig.make_uod, used unchanged) in three accumulator configurations:
+    "vol"    = totalizer Tot + with_accumulated_volume (Accumulated Volume / Block Volume)       [make_uod as is]
+    "vol+cv" = the same plus a column volume tag CV and with_accumulated_cv (Accumulated CV / Block CV)
+    "cv"     = Tot + CV + with_accumulated_cv only.
+    The extra builder calls are appended just before build() through a UodBuilder subclass that engine_rig.make_uod
+    instantiates for the duration of this call (engine_rig.py itself is not edited)."""
+    def factory(log):
+        if kind == "vol":
+            return R.make_uod(log, with_totalizer=True)
+        from openpectus.engine.hardware import RegisterDirection
+        from openpectus.lang.exec.tags_impl import ReadingTag
+
+        class _Builder(R.UodBuilder):
+            def build(self):
+                if kind == "cv":
+                    self.with_tag(ReadingTag("Tot", "L")).with_hardware_register("Tot", RegisterDirection.Read)
+                self.with_tag(Tag("CV", value=float(cv), unit="L"))
+                self.with_accumulated_cv(cv_tag_name="CV", totalizer_tag_name="Tot")
+                return super().build()
+        saved = R.UodBuilder
+        R.UodBuilder = _Builder
+        try:
+            return R.make_uod(log, with_totalizer=(kind != "cv"))
+        finally:
+            R.UodBuilder = saved
+    return factory
 
 
 # ------------------------------------------------------------------------------------------------
@@ -229,7 +302,8 @@ def run_case(case: dict, scratch: str, case_no: int = 0) -> Run:
     LOG.on = True
     rig = None
     try:
-        rig = R.EngineRig(case["text"], with_totalizer=True, enable_archiver=bool(case.get("archiver")))
+        rig = R.EngineRig(case["text"], enable_archiver=bool(case.get("archiver")),
+                          uod_factory=uod_factory(case.get("uod", "vol"), case.get("cv", 2.0)))
         if case.get("archiver"):
             ar = rig.e._system_tags["Archive filename"]
             assert ar.data_path.startswith(scratch), ar.data_path
@@ -269,6 +343,10 @@ def run_case(case: dict, scratch: str, case_no: int = 0) -> Run:
                     "chg_ticks_since_report": sorted(info.chg_ticks_since_report),
                     "n_notified_since_report": info.n_notified_since_report,
                 }
+                tot = getattr(t, "totalizer", None)
+                if tot is not None and hasattr(t, "accumulator_stack") and info.chg_tick is not None:
+                    # counter aid: did the accumulator's totalizer stand still in the tick of the last change?
+                    tags[str(t.name)]["tot_rest_in_chg_tick"] = info.chg_tick not in LOG.get(tot).chg_ticks
                 info.n_chg_since_report = 0
                 info.n_notified_since_report = 0
                 info.chg_ticks_since_report = set()
@@ -288,7 +366,10 @@ def run_case(case: dict, scratch: str, case_no: int = 0) -> Run:
             while user and user[0][0] <= k + 1:
                 rig.user(user.pop(0)[1])
             rig.hw.inputs["FT01"] = case["traj"][min(k, len(case["traj"]) - 1)]
-            rig.hw.inputs["Tot"] = float(case["tot_rate"]) * k
+            if "tot" in case:
+                rig.hw.inputs["Tot"] = float(case["tot"][min(k, len(case["tot"]) - 1)])
+            else:                                   # cases recorded before the plateau trajectories existed
+                rig.hw.inputs["Tot"] = float(case["tot_rate"]) * k
             n0 = len(R.TRACE)
             rig.tick(catch=True)
             k += 1
@@ -307,6 +388,7 @@ def run_case(case: dict, scratch: str, case_no: int = 0) -> Run:
                         info.chg_unmask = False
                         info.n_chg_since_report += 1
                         info.chg_ticks_since_report.add(k)
+                        info.chg_ticks.add(k)
             prev_shadow = sh
             if rig.tick_exc:
                 run.tick_exceptions = list(rig.tick_exc)
